@@ -88,3 +88,15 @@ func init() {
 		Uses:        []RuleUse{{"BITMAP-OWNERSHIP", ""}, {"DATA-READONLY", ""}, {"SEG-IMMUT", ""}, {"SINGLETON-GUARD", ""}},
 	})
 }
+
+func init() {
+	prop(&Property{
+		ID:          "C11",
+		Title:       "Written files end in a footer whose CRC-32 covers every preceding byte",
+		Technique:   "static analysis: SSA def-use/dominance rules on the CRC plumbing (seed of the footer CRC, hashing-writer chain of every data write, order and operand of the footer writes, crc32.Update operands, returned byte counts) + provenance of footer objects",
+		Level:       "Static rules sound for the named clauses: for every persist call site the footer CRC continues the running CRC of the writer all data bytes went through, the CRC is the last thing written and is computed with IEEE over exactly the bytes reported written, byte counts returned are data+footerLen / the hashing writer's count, and a parsed footer is never altered. Byte-for-byte re-persist additionally relies on Data.WriteTo (trusted) and the wire agreement rules of C04.",
+		Explanation: "CRC-SEED checks both persistFooter call sites: a dominating assignment footer.crc = Sum32() of a countHashWriter created in the same function, through which every data-writing call on that destination passes (no bypass), and a footer writer on the same destination that does not bypass a buffer holding data. CRC-LAST checks persistFooter itself (hashing writer seeded from footer.crc before the first write, all 7 writes through it, CRC written last from the running value, no write into the footer argument). CRC-UPDATE pins countHashWriter.Write/Count/Sum32. LEN-RETURN pins the three returned byte counts. FOOTER-FAITHFUL shows a footer obtained from parseFooter is never written afterwards and that parseFooter sets every footer field. SEG-IMMUT (shared with C15) shows persisting never stores into the segment or its footer.",
+		NotCovered:  "Data.WriteTo semantics (trusted); equality of re-persisted bytes beyond CRC/footer faithfulness (needs C04 WIRE-AGREE)",
+		Uses:        []RuleUse{{"CRC-SEED", ""}, {"CRC-LAST", ""}, {"CRC-UPDATE", ""}, {"LEN-RETURN", ""}, {"FOOTER-FAITHFUL", ""}, {"SEG-IMMUT", ""}},
+	})
+}
